@@ -127,6 +127,8 @@ def setChan : List Chan → Chan → List Chan
 inductive Act where
   /-- `send_dcep_ack(stream_id)` -/
   | dcepAck (sid : UInt16)
+  /-- `send_dcep_open(dc)` for the channel with this id -/
+  | dcepOpen (sid : UInt16)
   /-- `new_data_channel_tx.send(dc)` for a channel created from a DCEP OPEN -/
   | newChannel (sid : UInt16)
 deriving DecidableEq, Repr, Inhabited
